@@ -14,14 +14,14 @@ RULE = ('Cases: FASTA record sets built with `ska build -k K [--single-strand]` 
         'compared with the set-based reference model (arms -> IUPAC code of the set of middles; header fields). '
         'Forced kinds for every odd k in 5..63 and both strand modes: records of length k-1/k/k+1, N exactly k+1/k/k+2 '
         'from the record end, one k-mer repeated with 2..4 middles in both orientations, self-complementary arms, a record '
-        'and its reverse complement, input with no window (must be refused); plus random records (mixed case, N runs, '
-        'wrapping), multi-sample builds, three inputs per run of 6..80 kb (up to 300 kb in thorough; tables of thousands to hundreds of thousands of rows), builds of 20..160 samples with --threads 2..16, and several builds with different k inside one process (library route, harness).  A case is non-trivial when the model has at least one window; distinct = '
+        'and its reverse complement, input with no window (must be refused); plus random records (mixed case, N runs, low-complexity runs and tandem repeats around the arm length, '
+        'wrapping, a tenth with CRLF line ends, a tenth with a sample spread over two FASTA files of a file list), multi-sample builds, three inputs per run of 6..80 kb (up to 300 kb in thorough; tables of thousands to hundreds of thousands of rows), builds of 20..160 samples with --threads 2..16, and several builds with different k inside one process (library route, harness).  A case is non-trivial when the model has at least one window; distinct = '
         'distinct (k, strand mode, record set).')
 ASSUMPTIONS = ['the reference model in vlib/model.py states the specification correctly',
                'file names s<i>.fa give sample names s<i>',
                'a 15% slice is also run on the overflow-checked build; its panics are diagnostics, the release build decides']
 REQUIRED = {'quick': ['kind:len', 'kind:nend', 'kind:repeat', 'kind:pal', 'kind:rcrec', 'kind:empty', 'kind:random',
-                      'kind:multi', 'kind:manythreads', 'kind:inprocess', 'inprocess_builds_compared', 'palindromic_rows', 'refusals_correct', 'width64', 'width128', 'nk_without_full_info_compared', 'kind:huge', 'tables_over_4096_rows']}
+                      'kind:multi', 'kind:manythreads', 'kind:inprocess', 'inprocess_builds_compared', 'palindromic_rows', 'refusals_correct', 'width64', 'width128', 'nk_without_full_info_compared', 'kind:huge', 'tables_over_4096_rows', 'crlf_inputs', 'samples_given_as_two_fasta_files']}
 REQUIRED['thorough'] = REQUIRED['quick']
 
 KINDS = ['len', 'nend', 'repeat', 'pal', 'rcrec', 'empty']
@@ -134,7 +134,15 @@ def gen_records(desc):
                 L = rng.randint(500, 5000)
             else:
                 L = rng.choice([k - 1, k, k + 1, k + 2, 2 * k, rng.randint(k, 6 * k)])
-            recs.append(G.noisy_seq(rng, L, pn=rng.choice([0, 0, 0.01, 0.05])))
+            if kind == 'random' and rng.random() < 0.2:
+                # low complexity: runs and tandem repeats around the arm length and k (the same arms seen again one base on)
+                t_ = G.lowc_seq(rng, max(L, k), k)
+                if rng.random() < 0.3:
+                    i_ = rng.randrange(len(t_))
+                    t_ = t_[:i_] + 'N' + t_[i_ + 1:]
+                recs.append(t_)
+            else:
+                recs.append(G.noisy_seq(rng, L, pn=rng.choice([0, 0, 0.01, 0.05])))
         return [recs]
     if kind == 'manythreads':
         base = G.rseq(rng, 3 * k)
@@ -235,8 +243,35 @@ def run_case(desc, ctx):
     samples = gen_records(desc)
     rng = random.Random(desc['seed'] ^ 0x5a5a)
     files = []
+    # input layouts: LF or (a tenth) CRLF line ends, wrapped or not; route: positional files, or (a tenth) a file list in which
+    # a sample's records are spread over two FASTA files (name, file 1, file 2)
+    crlf = rng.random() < 0.1
+    two_files = rng.random() < 0.1
+    listed = []
     for i, recs in enumerate(samples):
-        files.append(G.write_fa(ctx.path('s%d.fa' % i), recs, wrap=rng.choice([0, 0, 10, 60])))
+        wrap_ = rng.choice([0, 0, 10, 60])
+
+        def put(name, rr):
+            txt = G.fasta_text(rr, wrap_)
+            if crlf:
+                txt = txt.replace('\n', '\r\n')
+            with open(ctx.path(name), 'w', newline='') as fh:
+                fh.write(txt)
+            return ctx.path(name)
+        if two_files and len(recs) >= 2:
+            cut = rng.randint(1, len(recs) - 1)
+            listed.append('s%d\t%s\t%s\n' % (i, put('s%d_a.fa' % i, recs[:cut]), put('s%d_b.fa' % i, recs[cut:])))
+        else:
+            files.append(put('s%d.fa' % i, recs))
+            listed.append('s%d\t%s\n' % (i, files[-1]))
+    if two_files and any(l.count('\t') == 2 for l in listed):
+        files = ['-f', ctx.write('inputs.list', ''.join(listed))]
+        res.count('samples_given_as_two_fasta_files')
+    else:
+        two_files = False
+        files = [l.rstrip('\n').split('\t')[1] for l in listed]
+    if crlf:
+        res.count('crlf_inputs')
     per_sample = [M.build(recs, k, rcmode) for recs in samples]
     expected = M.table_of(samples, k, rcmode)
     must_refuse = any(not d for d in per_sample)
